@@ -148,9 +148,13 @@ REGISTRY = {
             "witness": "api", "assumptions": IO_ASSUME + [
                 "numpy export: element [c][i] is the signed little-endian value of channel c of sample i -- proved as the "
                 "to_array contract in C07 (numpy axiomatised)"]},
-    "C10": {"module": "props.readers", "units": ["limiter", "fixed", "overlap_iter", "overlap_misc", "audioreader"],
+    "C10": {"parts": [{"module": "props.readers", "units": ["limiter", "fixed", "overlap_iter", "overlap_misc", "audioreader"]},
+                      # the wrapped source really obeys the interface contract the wrappers are verified against
+                      {"module": "props.sources", "units": ["buffer_read", "file_read", "file_open"], "include_all": True}],
             "witness": "api", "assumptions": RD_ASSUME},
-    "C19": {"module": "props.readers", "units": ["limiter", "overlap_iter", "overlap_misc", "recorder", "replay_lemma", "audioreader"],
+    "C19": {"parts": [{"module": "props.readers", "units": ["overlap_iter", "overlap_misc", "recorder", "replay_lemma", "audioreader"]},
+                      # rewind goes through the limiter: its whole contract (read / rewind / data) is part of the check
+                      {"module": "props.readers", "units": ["limiter"], "include_all": True}],
             "witness": "api", "assumptions": RD_ASSUME},
     "C11": {"module": "props.sources", "units": ["buffer_init", "buffer_read", "buffer_position", "file_read", "file_open"],
             "witness": "api", "assumptions": [
@@ -171,13 +175,17 @@ REGISTRY = {
     "C13": {"parts": [{"module": "props.workers", "units": ["worker_run", "worker_misc", "notify", "stream_saver", "joiner", "region_saver", "saver_init",
                                                               "split_and_join", "tokenizer_init_read", "structure"]},
                       {"module": "props.regions", "units": ["make_silence", "join", "check_iter_others"]},
-                      {"module": "props.iofuncs", "units": ["region_save", "to_file", "guess_format"]}],
+                      {"module": "props.iofuncs", "units": ["region_save", "to_file", "guess_format"]},
+                      # which saver / joiner exists for which options
+                      {"module": "props.cmdline", "units": ["initialize_workers"]}],
             "witness": "workers", "assumptions": WK_ASSUME + [
                 "the wave writer is a library model: the file holds, in order, what writeframes was given; a closed file has a "
                 "complete header with the parameters set at creation (assumed)"]},
     "C14": {"parts": [{"module": "props.workers", "units": ["worker_run", "worker_misc", "notify", "tokenizer_run", "tokenizer_init_read",
                                                               "stream_saver", "joiner", "saver_init", "structure"]},
-                      {"module": "props.tokenizer", "units": ["lemmas", "post_process", "iter_tokens"]}],
+                      {"module": "props.tokenizer", "units": ["lemmas", "post_process", "iter_tokens"]},
+                      # the stop path closes a reader that is not exhausted: close() of every source kind returns
+                      {"module": "props.sources", "units": ["file_read", "buffer_position"]}],
             "witness": "workers", "assumptions": WK_ASSUME + [
                 "'every point at which the stop can arrive' = every outcome of the stop poll that precedes each read (stop marker "
                 "present / absent): once it is seen read() returns end-of-stream without touching the reader, and the tokenizer's "
